@@ -22,6 +22,7 @@ mod pos_conv;
 mod c06;
 mod c11;
 mod c12;
+mod c14;
 mod c15;
 mod c19;
 mod checks;
